@@ -19,11 +19,16 @@ COQ_CASE_TYPE = "M_Yaml.case"
 COQ_CHECK = "M_Yaml.check_case"
 COQ_PREAMBLE = "Import M_AgentDef M_Yaml."
 OBLIGATIONS = ["multi_file_concat", "assignments_text_roundtrip_partial", "extensional_table_roundtrip",
-               "extensional_same_str_refuted"]
+               "extensional_same_str_refuted",
+               "domains_roundtrip", "variables_roundtrip", "constraints_roundtrip",
+               "constraint_values_preserved", "agents_roundtrip", "routes_load_order_independent",
+               "yaml_roundtrip", "multi_file_split", "yaml_roundtrip_files",
+               "default_route_guard_refuted", "unregistered_domain_guard_refuted"]
 N_QUICK, N_THOROUGH = 400, 6000
 SHARD = 100
 PARALLEL = 1
-RULE = ("seeded random DCOPs: 1-3 domains (int / str / mixed values, sizes 0-4, a few hostile ones: "
+RULE = ("seeded random DCOPs (70 % assembled by filling the DCOP's dicts, 30 % through the public API "
+        "add_variable / add_constraint / add_agents, which decides which domains are registered): 1-3 domains (int / str / mixed values, sizes 0-4, a few hostile ones: "
         "equal str(), blanks, '|'), 1-5 variables with/without initial value, 0-4 constraints "
         "(matrix, function-without-expression, expression) of arity 1-3, 0-4 agents with capacity, "
         "symmetric / one-sided / unknown-target routes, default and specific hosting costs; dumped "
@@ -172,7 +177,18 @@ def _gen_dcop(rng):
             routes=rs,
             default_hosting=rng.choice([0, 0, 0, 1, 5, rng.randint(0, 20)]),
             hosting=[[c, rng.randint(0, 30)] for c in comps if rng.random() < 0.25]))
-    return dict(name=rng.choice(["dcop", "t1", "graph coloring"]), objective=rng.choice(["min", "max"]),
+    name, objective = rng.choice(["dcop", "t1", "graph coloring"]), rng.choice(["min", "max"])
+    build = "api" if rng.random() < 0.3 else "dict"
+    if build == "api":
+        # the DCOP is assembled with DCOP.add_variable / add_constraint / add_agents only: its
+        # domains are the ones the API registers (the domains of its variables, in that order)
+        used = []
+        for v in variables:
+            if v["domain"] not in used:
+                used.append(v["domain"])
+        domains = [doms[n] for n in used]
+        registered = list(used)
+    return dict(name=name, objective=objective, build=build,
                 domains=domains, registered=registered, variables=variables,
                 constraints=constraints, agents=agents)
 
@@ -403,12 +419,17 @@ def _build_dcop(d):
     import numpy as np
     doms = {x["name"]: Domain(x["name"], x["type"], x["values"]) for x in d["domains"]}
     dcop = DCOP(d["name"], d["objective"])
-    for n in d["registered"]:
-        dcop.domains[n] = doms[n]
+    api = d.get("build") == "api"
+    if not api:
+        for n in d["registered"]:
+            dcop.domains[n] = doms[n]
     vars_ = {}
     for v in d["variables"]:
         vars_[v["name"]] = Variable(v["name"], doms[v["domain"]], v["init"])
-        dcop.variables[v["name"]] = vars_[v["name"]]
+        if api:
+            dcop.add_variable(vars_[v["name"]])
+        else:
+            dcop.variables[v["name"]] = vars_[v["name"]]
     for c in d["constraints"]:
         vs = [vars_[n] for n in c["vars"]]
         if c["kind"] == "int":
@@ -424,7 +445,10 @@ def _build_dcop(d):
             def f(_vs=vs, _table=table, **kw):
                 return _table[tuple(v.domain.index(kw[v.name]) for v in _vs)]
             r = NAryFunctionRelation(f, vs, name=c["name"], f_kwargs=True)
-        dcop.constraints[c["name"]] = r
+        if api:
+            dcop.add_constraint(r)
+        else:
+            dcop.constraints[c["name"]] = r
     dcop.add_agents([_build_agent(a) for a in d["agents"]])
     return dcop
 
@@ -530,14 +554,15 @@ def run_impl(c):
                 res = _err(e)
             return dict(loaded_trees=proxy.loaded, result=res, text_ok=(proxy.loaded[:1] == [c["tree"]]))
         dcop = _build_dcop(d)
+        registered_obs = [dom.name for dom in dcop.domains.values()]
         try:
             text = Y.dcop_yaml(dcop)
         except Exception as e:
-            return dict(dump=_err(e))
+            return dict(dump=_err(e), registered_obs=registered_obs)
         merged = {}
         for t in proxy.dumped:
             merged.update(t)
-        out = dict(dump=dict(tree=merged), how=c["how"])
+        out = dict(dump=dict(tree=merged), how=c["how"], registered_obs=registered_obs)
         try:
             out["text_ok"] = (real_yaml.load(text, Loader=real_yaml.FullLoader) == merged)
         except Exception as e:
@@ -782,7 +807,11 @@ def _agent(f):
                                             _int(f["default_hosting"]), _szd(f["hosting"]), _szd(f["attrs"]))
 
 
-def _dcop_term(d):
+def _dcop_term(d, registered=None):
+    """registered = names of the domains found in dcop.domains of the object given to dcop_yaml
+    (the model's input is that object); default: the generator's list"""
+    if registered is None:
+        registered = d["registered"]
     doms = {x["name"]: x for x in d["domains"]}
     vars_ = {v["name"]: v for v in d["variables"]}
     cons = []
@@ -806,7 +835,7 @@ def _dcop_term(d):
         ags.append(_agent(dict(name=a["name"], default_route=a["default_route"], routes=a["routes"],
                                default_hosting=a["default_hosting"], hosting=a["hosting"], attrs=attrs)))
     return "(mkDcop %s %s %s %s %s %s)" % (
-        q.s(d["name"]), q.s(d["objective"]), q.lst([_dom(doms[n]) for n in d["registered"]]),
+        q.s(d["name"]), q.s(d["objective"]), q.lst([_dom(doms[n]) for n in registered]),
         q.lst([_var(v, doms) for v in d["variables"]]), q.lst(cons), q.lst(ags))
 
 
@@ -969,7 +998,7 @@ def coq_case(c, o):
             if not o["loaded_trees"]:
                 return None
             return "CLoad %s %s" % (_tree_term(o["loaded_trees"][0]), _loaded_term(o["result"]))
-        d = _dcop_term(c["dcop"])
+        d = _dcop_term(c["dcop"], o.get("registered_obs"))
         if "error" in o["dump"]:
             return "CRound %s %s [] (Err EValue)" % (d, _err_term(o["dump"]["error"]))
         if c["how"] == "strpath" and "error" in o["result"] and o["result"]["error"] not in _ERR:
@@ -1010,6 +1039,7 @@ def histogram(cases, obs):
             r = o.get("result", {}) if isinstance(o, dict) else {}
         else:
             inc("round/" + c["how"] + ("+override" if c.get("override_agents") else ""))
+            inc("round/built-by-" + c["dcop"].get("build", "dict"))
             inc("round/expressible" if _expressible(c["dcop"]) else "round/not-expressible")
             r = o.get("result", o.get("dump", {})) if isinstance(o, dict) else {}
         if isinstance(r, dict) and "error" in r:
